@@ -202,11 +202,9 @@ func runC09(r *Report) {
 			continue
 		}
 		// zero-escape edges
-		zeroT, _ := condEdges(fn, func(c ssa.Value) bool {
-			bo, ok := c.(*ssa.BinOp)
-			if !ok || bo.Op != token.EQL {
-				return false
-			}
+		// (whichever way the test is written: `expected == 0` or `expected != 0` with the branches exchanged)
+		var zeroT []Edge
+		for _, b := range liveBlocks(fn) {
 			isExp := func(v ssa.Value) bool {
 				if f, ok := v.(*ssa.Field); ok {
 					_, n, _, ok2 := fieldAddrName(f)
@@ -216,8 +214,13 @@ func runC09(r *Report) {
 				return ok && n == "Checksum"
 			}
 			z := func(v ssa.Value) bool { i, ok := constInt(v); return ok && i == 0 }
-			return (isExp(bo.X) && z(bo.Y)) || (isExp(bo.Y) && z(bo.X))
-		})
+			for _, v := range ifCmpForms(b) {
+				if v.Op == token.EQL && isExp(v.X) && z(v.Y) {
+					zeroT = append(zeroT, Edge{b, v.T})
+					break
+				}
+			}
+		}
 		rem := map[Edge]bool{}
 		for _, e := range zeroT {
 			rem[e] = true
